@@ -81,6 +81,7 @@ pub fn complete(
                         s.is_some()
                     });
                     is_find.unwrap_or(false)
+                        || a.get_aliases().is_some_and(|v| v.contains(&flag))
                 });
 
                 if let Some(opt) = opt {
@@ -604,6 +605,7 @@ fn parse_shortflags<'c, 's>(
                         c.is_some()
                     });
                     is_find.unwrap_or(false)
+                        || a.get_all_short_aliases().is_some_and(|v| v.contains(&opt))
                 });
                 if opt
                     .map(|o| o.get_num_args().expect("built").takes_values())
@@ -688,6 +690,7 @@ fn has_short(cmd: &clap::Command, short: char) -> bool {
     cmd.get_arguments().any(|a| {
         a.get_short_and_visible_aliases()
             .is_some_and(|shorts| shorts.contains(&short))
+            || a.get_all_short_aliases().is_some_and(|v| v.contains(&short))
     })
 }
 
